@@ -5,12 +5,16 @@ from mc import core, det, vnet, fe
 PROPERTY = 'C12'
 ENGINE = 'E3 stateless exploration of ALL delivery/timer schedules of 2 (deviation-bounded: 3) scripted raw connections against the real handler, ServicesManager and websockets on the virtual network'
 LEVEL = 'model_checking'
-DIRECTED_ADDITIONS = 'distinct request paths, pending-cleanup variants, hold / give-up / take-over triples (up to four connections per sid)'      # members added during the seeded-change campaign (DESIGN 7); counted under their own vacuity counters
+DIRECTED_ADDITIONS = 'a first connection that stays for 70 virtual seconds with two queued behind it, distinct request paths, pending-cleanup variants, hold / give-up / take-over triples (up to four connections per sid)'      # members added during the seeded-change campaign (DESIGN 7); counted under their own vacuity counters
 
 SCRIPTS = {'C': ['config'], 'CU': ['config', 'upload'], 'U': ['upload'], 'S': ['search'], 'CUS': ['config', 'upload', 'search'], 'X': []}
 # scripts used only in the triples below: 'hold' keeps the connection open until nothing else can happen (a client that is slow to
 # leave); 'giveup' closes as soon as the server's wait notice arrives, i.e. WHILE waiting for the earlier connection
 SCRIPTS.update({'H': ['hold'], 'CH': ['config', 'hold'], 'CUH': ['config', 'upload', 'hold'], 'G': ['giveup']})
+# 'holdlong': the first connection stays for 70 virtual seconds, well past every periodic timer of the server and of the websocket
+# layer (keep-alive pings at 20 s), with the others queued behind it
+SCRIPTS.update({'L': ['holdlong'], 'CL': ['config', 'holdlong']})
+LONG_HOLD_TRIPLES = [('L', 'CU', 'S'), ('CL', 'U', 'S'), ('L', 'C', 'C')]
 PAIR_SCRIPTS = ['C', 'CU', 'U', 'S', 'CUS', 'X']
 HOLD_TRIPLES = [('CH', 'G', 'C'), ('H', 'G', 'C'), ('CH', 'G', 'U'), ('CUH', 'G', 'U'), ('CUH', 'G', 'S'), ('H', 'G', 'S'), ('CH', 'C', 'G'), ('H', 'X', 'CU'),
                 # the FIRST connection leaves, the second takes over and stays while the first one's delayed cleanup comes due, then a third
@@ -66,6 +70,9 @@ def units(tier, seed):
     for s0 in (0, 1, 2):
         for t in HOLD_TRIPLES:
             us.append(('triple-hold/s%d/%s' % (s0, '-'.join(t)), {'s0': s0, 'scripts': list(t), 'bound': BOUND3[tier], 'limit': LIMIT3[tier], 'pending': s0 > 0}))
+    for s0 in (0, 1):
+        for t in LONG_HOLD_TRIPLES:
+            us.append(('triple-hold/long/s%d/%s' % (s0, '-'.join(t)), {'s0': s0, 'scripts': list(t), 'bound': BOUND3[tier], 'limit': LIMIT3[tier]}))
     for s0 in (1, 2):
         for t in TRIPLES:
             us.append(('triple-pending/s%d/%s' % (s0, '-'.join(t)), {'s0': s0, 'scripts': list(t), 'bound': BOUND3[tier], 'limit': LIMIT3[tier], 'pending': True}))
@@ -182,6 +189,9 @@ def execute(fx, s0, scripts, prefix, max_steps=60000, paths='same', pending=Fals
                         return
                 for req in script:
                     if req == 'giveup':
+                        continue
+                    if req == 'holdlong':
+                        await asyncio.sleep(70.0)
                         continue
                     if req == 'hold':
                         # longer than vnet's SHORT timer rule: it expires only when nothing else is enabled, i.e. this client
